@@ -161,6 +161,8 @@ class BayesianNetwork:
                     raise TypeError(_N_TYPE_ERROR)
                 elif i <= 0:
                     raise ValueError(_N_TYPE_ERROR)
+            if len(n) != self.e:
+                raise ValueError(_N_TYPE_ERROR)
         return None
 
 
